@@ -226,6 +226,102 @@ def oracle_space(case, ctx):
     ctx.ev.case(case, nt=(len(space['types']) >= 2 and ('Door' in space['types'] or len(space['colors']) > 1)), classes=['space'])
 
 
+# ------------------------------------------------------------------ user-defined object types (registered by subclassing)
+
+from gym_gridverse import grid_object as _go  # noqa: E402
+
+
+class VerifCrate(_go.Wall):
+    """a custom scenery type deriving from a registered type (registration happens through __init_subclass__)"""
+
+
+class VerifGem(_go.Key):
+    """a custom holdable, coloured type deriving from Key"""
+
+
+class VerifPlain(_go.GridObject):
+    state_index = 0
+    color = _go.Color.NONE
+    blocks_movement = False
+    blocks_vision = False
+    holdable = False
+
+    @classmethod
+    def can_be_represented_in_state(cls):
+        return True
+
+    @classmethod
+    def num_states(cls):
+        return 1
+
+
+CUSTOM = {'VerifCrate': VerifCrate, 'VerifGem': VerifGem, 'VerifPlain': VerifPlain}
+
+
+def enum_custom(tier, shard, nshards):
+    i = 0
+    builtin = ['Floor', 'Wall', 'Key', 'Door', 'Exit']
+    for bits in itertools.product([0, 1], repeat=len(builtin)):
+        base = [t for t, b in zip(builtin, bits) if b]
+        for cust in (['VerifCrate'], ['VerifGem'], ['VerifPlain'], ['VerifCrate', 'VerifGem', 'VerifPlain']):
+            for parents_first in (True, False):
+                i += 1
+                if i % nshards == shard:
+                    yield {'builtin': base, 'custom': cust, 'parents_first': parents_first, 'colors': ['NONE', 'RED', 'YELLOW']}
+
+
+def oracle_custom(case, ctx):
+    from gym_gridverse.geometry import Shape
+    from gym_gridverse.representations.observation_representations import make_observation_representation
+    from gym_gridverse.representations.state_representations import make_state_representation
+    from gym_gridverse.spaces import ObservationSpace, StateSpace
+    from gym_gridverse.grid import Grid
+    from gym_gridverse.agent import Agent
+    from gym_gridverse.geometry import Orientation, Position
+    from gym_gridverse.state import State
+    from gym_gridverse.observation import Observation
+    names = (case['builtin'] + case['custom']) if case['parents_first'] else (case['custom'] + case['builtin'])
+    types = [CUSTOM.get(n) or getattr(_go, n) for n in names]
+    colors = [_go.Color[c] for c in case['colors']]
+
+    def instances(t):
+        if t in (_go.Key, VerifGem, _go.Exit):
+            return [t(c) for c in colors]
+        if t is _go.Door:
+            return [t(st_, c) for st_ in _go.Door.Status for c in colors]
+        return [t()]
+
+    objs_ = [o for t in types for o in instances(t)]
+    registry_index = {t: _go.grid_object_registry.index(t) for t in types}
+    if len(set(registry_index.values())) != len(types):
+        ctx.fail('the registry gives two types the same index', {'kind': 'type_index'})
+    for kind in ('state', 'obs'):
+        for name in reps.NAMES:
+            if kind == 'state':
+                rep = make_state_representation(name, StateSpace(Shape(2, 2), types, colors))
+            else:
+                rep = make_observation_representation(name, ObservationSpace(Shape(1, 3), types, colors))
+            enc = {}
+            for o in objs_:
+                shape = (2, 2) if kind == 'state' else (1, 3)
+                grid = Grid([[type(objs_[0])() if type(objs_[0]) not in (_go.Key, VerifGem, _go.Exit, _go.Door) else instances(type(objs_[0]))[0] for _ in range(shape[1])] for _ in range(shape[0])])
+                grid[shape[0] - 1, shape[1] - 1] = o
+                member = (State if kind == 'state' else Observation)(grid, Agent(Position(0, 0), Orientation.F, None))
+                a = rep.convert(member)
+                enc[(type(o).__name__, o.state_index, o.color.name)] = tuple(int(v) for v in a['grid'][shape[0] - 1, shape[1] - 1])
+                if name == 'default' and enc[(type(o).__name__, o.state_index, o.color.name)] != (registry_index[type(o)], o.state_index, o.color.value):
+                    ctx.fail(f'{kind}/default: {type(o).__name__} encoded as {enc[(type(o).__name__, o.state_index, o.color.name)]}, its (type index, status, colour) is '
+                             f'{(registry_index[type(o)], o.state_index, o.color.value)}', {'kind': 'default_triple'})
+            if len(set(enc.values())) != len(enc):
+                dup = [k for k, v in enc.items() if list(enc.values()).count(v) > 1]
+                ctx.fail(f'{kind}/{name}: different objects share an encoding: {dup[:4]} (types {names})', {'kind': 'lossless', 'rep': name})
+            if name != 'default':
+                ch = [set(c[k] for c in enc.values()) for k in range(3)]
+                if ch[0] & ch[1] or ch[0] & ch[2] or ch[1] & ch[2]:
+                    ctx.fail(f'{kind}/{name}: channel value ranges overlap with custom types {names}', {'kind': 'channel_overlap', 'rep': name})
+    ctx.ev.case(case, nt=True, classes=['parents_first' if case['parents_first'] else 'custom_first'] + ['custom:' + c for c in case['custom']])
+
+
 CHECKS = [
     Check('pairs', oracle_pair, strategy=strat_pair, examples={'quick': 400, 'thorough': 1500}, shards={'quick': 4, 'thorough': 16},
           rule='space x member pair (one generated edit: cell object / door status / door colour / agent cell / heading / held item / swap / independent draw) x 3 representations: equal arrays <=> equal members; positional cell encoding; agent marker; default triple; normalised pose',
@@ -235,4 +331,7 @@ CHECKS = [
           required=['hashed_then_stepped']),
     Check('spaces_exhaustive', oracle_space, enumerate=enum_spaces, shards={'quick': 16, 'thorough': 16}, exhaustive=True,
           rule='all 2^9-1 type subsets x 4 colour subsets (16 thorough): every object of the space: cell == item encoding, same at every cell, injective, default triple, channel disjointness (no-overlap, compact), no gaps (compact)'),
+    Check('custom_types', oracle_custom, enumerate=enum_custom, shards={'quick': 4, 'thorough': 8},
+          rule='spaces mixing built-in types with user-defined ones (subclasses of Wall, of Key, and of GridObject) in both declaration orders: registry indices unique, default triple, injective encodings, channel disjointness',
+          required=['parents_first', 'custom_first', 'custom:VerifCrate']),
 ]
